@@ -29,33 +29,66 @@ func init() {
 		}
 		tables := map[string]string{}
 		var argOrder []string
-		for _, st := range fd.Body.List {
-			switch s := st.(type) {
-			case *ast.AssignStmt:
-				if len(s.Lhs) != 1 || len(s.Rhs) != 1 {
-					continue
-				}
-				id, ok := s.Lhs[0].(*ast.Ident)
-				cl, ok2 := s.Rhs[0].(*ast.CompositeLit)
-				if !ok || !ok2 {
-					continue
-				}
-				var elems []string
-				for _, e := range cl.Elts {
-					// []byte("…") conversion of a constant string, or a constant bool
-					if ce, ok := e.(*ast.CallExpr); ok && len(ce.Args) == 1 {
-						if tv, ok := p.info.Types[ce.Args[0]]; ok && tv.Value != nil && tv.Value.Kind() == constant.String {
-							elems = append(elems, leanBytes(constant.StringVal(tv.Value)))
-							continue
+		// the tables may be locals of NewJsonPlusReader or package-level variables initialised by a literal
+		type litDef struct {
+			id *ast.Ident
+			cl *ast.CompositeLit
+		}
+		var lits []litDef
+		for _, f := range p.files {
+			for _, d := range f.Decls {
+				if gd, ok := d.(*ast.GenDecl); ok && gd.Tok == token.VAR {
+					for _, sp := range gd.Specs {
+						if vs, ok := sp.(*ast.ValueSpec); ok {
+							for i, n := range vs.Names {
+								if i < len(vs.Values) {
+									if cl, ok := vs.Values[i].(*ast.CompositeLit); ok {
+										lits = append(lits, litDef{n, cl})
+									}
+								}
+							}
 						}
 					}
-					if tv, ok := p.info.Types[e]; ok && tv.Value != nil && tv.Value.Kind() == constant.Bool {
-						elems = append(elems, fmt.Sprint(constant.BoolVal(tv.Value)))
-						continue
-					}
-					return fmt.Errorf("NewJsonPlusReader: element of %s is neither []byte(const) nor a constant bool", id.Name)
 				}
-				tables[id.Name] = "[" + strings.Join(elems, ", ") + "]"
+			}
+		}
+		for _, st := range fd.Body.List {
+			if s, ok := st.(*ast.AssignStmt); ok && len(s.Lhs) == 1 && len(s.Rhs) == 1 {
+				id, ok := s.Lhs[0].(*ast.Ident)
+				cl, ok2 := s.Rhs[0].(*ast.CompositeLit)
+				if ok && ok2 {
+					lits = append(lits, litDef{id, cl})
+				}
+			}
+		}
+		for _, ld := range lits {
+			id, cl := ld.id, ld.cl
+			{
+				{
+					var elems []string
+					bad := false
+					for _, e := range cl.Elts {
+						// []byte("…") conversion of a constant string, or a constant bool
+						if ce, ok := e.(*ast.CallExpr); ok && len(ce.Args) == 1 {
+							if tv, ok := p.info.Types[ce.Args[0]]; ok && tv.Value != nil && tv.Value.Kind() == constant.String {
+								elems = append(elems, leanBytes(constant.StringVal(tv.Value)))
+								continue
+							}
+						}
+						if tv, ok := p.info.Types[e]; ok && tv.Value != nil && tv.Value.Kind() == constant.Bool {
+							elems = append(elems, fmt.Sprint(constant.BoolVal(tv.Value)))
+							continue
+						}
+						bad = true // some other literal of the package: not one of the tables
+					}
+					if !bad {
+						tables[id.Name] = "[" + strings.Join(elems, ", ") + "]"
+					}
+				}
+			}
+		}
+		for _, st := range fd.Body.List {
+			switch s := st.(type) {
 			case *ast.ReturnStmt:
 				if len(s.Results) == 1 {
 					if ce, ok := s.Results[0].(*ast.CallExpr); ok && p.src(ce.Fun) == "NewCommentReader" {
